@@ -15,7 +15,7 @@ func Run(k *report.Check) {
 	k.Rule = "(a) assignment: every key-group count g<=12 (quick: 9), every old operator count M and new operator count N up to g+2, and every order (all permutations for M<=5, rotations and reversal beyond) in which the old operators' checkpoints were recorded: new operator i must be handed exactly the old checkpoints whose key-group range intersects its own. (b) end to end: see the parts below. non-trivial = distinct (g,M,N,order) with an order other than ascending, and distinct end-to-end histories"
 	k.Assumptions = []string{"operators with an empty key-group range (N>g) own nothing: for them only 'nothing is lost' is required"}
 	k.Budget(120, 1200)
-	k.Parts(3)
+	k.Parts(4)
 	k.Explore("assign-ranges", mc.Config{}, k.Pick(9, 12), assignBody)
 	endToEnd(k)
 }
